@@ -44,7 +44,8 @@ FullJoinOK(L, R, by, out) ==
   /\ \A t \in 1..n :
        /\ ~(lid(t) = NA /\ rid(t) = NA)
        /\ lid(t) # NA => /\ \E i \in 1..NRow(L) : L.cell["r"][i] = lid(t)
-                         /\ \A c \in ColSet(L) : out.cell[c][t] = L.cell[c][li(t)]
+                         /\ \A c \in ColSet(L) \ Range(by) : out.cell[c][t] = L.cell[c][li(t)]
+                         /\ \A c \in Range(by) : K(out.cell[c][t]) = K(L.cell[c][li(t)])      \* an equal key may be either side's representation (-0.0 / 0.0)
        /\ rid(t) # NA => /\ \E m \in 1..NRow(R) : R.cell["rr"][m] = rid(t)
                          /\ \A c \in Range(RExtra(R, by)) : out.cell[c][t] = R.cell[c][ri(t)]
        /\ (lid(t) # NA /\ rid(t) # NA) => KeysMatch(L, R, by, li(t), ri(t))     \* never pairs unequal keys
